@@ -2315,6 +2315,18 @@ class Transport(threading.Thread, ClosingContextManager):
                 )
                 self._log(ERROR, util.tb_strings())
                 self.saved_exception = e
+            except UnicodeDecodeError as e:
+                # A text field (name-list, service/method/request name,
+                # description...) of a message from the peer was not UTF-8.
+                # That is the peer violating the protocol, not an internal
+                # error: report it like any other malformed message.
+                ssh_e = SSHException(
+                    "Invalid UTF-8 in a message from the peer: {}".format(e)
+                )
+                ssh_e.__cause__ = e
+                self._log(ERROR, str(ssh_e))
+                self._log(ERROR, util.tb_strings())
+                self.saved_exception = ssh_e
             except EOFError as e:
                 self._log(DEBUG, "EOF in transport thread")
                 self.saved_exception = e
